@@ -38,6 +38,15 @@ def pick_tables(ctx, tabs):
         return names
     base = ["bpsk", "qpsk_n1", "psk8_g1", "psk16_g0", "qam16_g1_n1", "qam64_g0_n0", "pam4_g1_n1", "pam8_g0_n0", "qam4_g1_n0", "psk4_g1"]
     base = [n for n in base if n in names]
+    # the largest order of every scheme, Gray and binary labels (table-building shortcuts tend to hold for small orders only)
+    for kind in ("psk", "qam", "pam"):
+        cand = [n for n in names if tabs[n][0].kind == kind]
+        if cand:
+            top = max(len(tabs[n][1]) for n in cand)
+            for g in (True, False):
+                hit = [n for n in cand if len(tabs[n][1]) == top and bool(tabs[n][0].gray) == g]
+                if hit and hit[0] not in base:
+                    base.append(hit[0])
     rest = [n for n in names if n not in base]
     return base + ctx.rng.sample(rest, min(4, len(rest)))
 
